@@ -5,6 +5,7 @@ import (
 	"fmt"
 	"sort"
 	"strings"
+	"sync"
 	"time"
 
 	"github.com/anyproto/any-sync/commonspace/headsync/headstorage"
@@ -290,6 +291,7 @@ func (w *world) roundDiff(j *judge, p string) (res string, reqs int) {
 		break
 	}
 	reqs = c.nreq - 1
+	noteReqs(reqs, c.ranges)
 	if !on {
 		if res != "fail" || len(n.calls) != calls {
 			j.violate("round/offline-peer-synced/diff", fmt.Sprintf("node %s: the diff with offline peer %s failed but the round went on with it", p, q.id))
@@ -404,6 +406,29 @@ func (w *world) roundApply(j *judge, p string) (o applyObs) {
 		w.tasks[task{F: p, T: q.id, I: w.kvId, K: "kv"}] = true
 	}
 	return
+}
+
+var (
+	statMu       sync.Mutex
+	statMaxReqs  int // most request rounds of one ldiff.Diff
+	statMaxRange int // most ranges in one request
+	statMulti    int // diffs that needed more than one request
+)
+
+func noteReqs(reqs int, ranges []int) {
+	statMu.Lock()
+	defer statMu.Unlock()
+	if reqs > statMaxReqs {
+		statMaxReqs = reqs
+	}
+	if reqs > 1 {
+		statMulti++
+	}
+	for _, r := range ranges {
+		if r > statMaxRange {
+			statMaxRange = r
+		}
+	}
 }
 
 func contains(s []string, x string) bool {
